@@ -75,13 +75,15 @@ def r2(p, rep):
         if isinstance(n, ast.Call) and isinstance(n.func, ast.Name) and n.func.id == "Axis" and n.args:
             facts = [(norm(t), pol) for t, pol in cfg.guards_of_ast(n)]
             name = n.args[0]
-            if any(t.endswith(".isdigit()") and pol for t, pol in facts):
+            is_number_axis = len(n.args) > 1 and isinstance(n.args[1], ast.Call) and isinstance(n.args[1].func, ast.Name) and n.args[1].func.id == "int"
+            if is_number_axis:
                 found_digit = True
+                branch = enclosing(n, ast.If)
                 # name must derive from a uuid4() call evaluated inside this branch
                 src_expr = name
                 if isinstance(name, ast.Name):
                     defs = [a for a in walk_no_nested(f.node) if isinstance(a, ast.Assign) and any(isinstance(t, ast.Name) and t.id == name.id for t in a.targets)]
-                    same_branch = [a for a in defs if any(t.endswith(".isdigit()") and pol for t, pol in [(norm(t), pol) for t, pol in cfg.guards_of_ast(a)])]
+                    same_branch = [a for a in defs if enclosing(a, ast.If) is branch]
                     src_expr = same_branch[0].value if same_branch else None
                 fresh = src_expr is not None and any(isinstance(c, ast.Call) and norm(c.func).endswith("uuid4") for c in ast.walk(src_expr))
                 rep.add("C07.R2", f"{f.qualname}:number-is-fresh-axis", f"{f.module.rel}:{n.lineno}", fresh, f"name = {norm(src_expr)[:60] if src_expr is not None else None}" + ("" if fresh else ": two occurrences of the same number would become the SAME axis (e.g. '2 2' would mean a diagonal / be tied together)"))
